@@ -95,26 +95,17 @@ func runC06(r *Report) {
 	// R06b
 	if hp := r.FnAnchor("R06b", P+"handlePush"); hp != nil {
 		dels := CallSites(hp, "iface:rueidis.CacheStore.Delete")
-		r.Anchor("R06b", "Delete calls in handlePush", len(dels) == 2)
-		isNilTest := func(g Guard) (bool, bool) {
-			c, ok := g.Cond.(*ssa.Call)
-			if !ok || CalleeName(c) != "rueidis.(*RedisMessage).IsNil" {
-				return false, false
-			}
-			return g.Pol, true
-		}
+		r.Anchor("R06b", "Delete calls in handlePush (one per arm of the null test, or one with the hoisted key list)", len(dels) == 2 || len(dels) == 1)
 		for _, s := range dels {
 			arg := s.Call().Common().Args[0]
-			var want bool
 			desc := "keys"
 			if IsNilConst(arg) {
-				want, desc = true, "nil"
-			} else if c, ok := arg.(*ssa.Call); !ok || CalleeName(c) != "rueidis.(*RedisMessage).values" {
-				r.ObSite("R06b", s, "delete-argument", false, "Delete must receive nil (flush) or the pushed key list values[1].values()")
-				continue
+				desc = "nil"
+			} else if _, isphi := arg.(*ssa.Phi); isphi {
+				desc = "nil-or-keys"
 			}
-			ok := Guarded(s.Block, func(g Guard) bool { pol, is := isNilTest(g); return is && pol == want })
-			r.ObSite("R06b", s, "delete-"+desc+"-iff-null-keylist", ok, "Delete(nil) exactly when the pushed key list is null, otherwise Delete(keys)")
+			ok := pushedKeyListArg(arg, s.Block)
+			r.ObSite("R06b", s, "delete-"+desc+"-iff-null-keylist", ok, "Delete(nil) exactly when the pushed key list is null, otherwise Delete(values[1].values())")
 			hasStore := Guarded(s.Block, func(g Guard) bool {
 				x, op, y, cok := CmpGuard(g)
 				return cok && op == token.NEQ && IsNilConst(y) && strings.HasSuffix(Desc(x), ".cache")
